@@ -189,6 +189,8 @@ func (r *FeatureLocal) addPendingApproval(msg *api.Message) {
 
 	ski := msg.DeviceRemote.Ski()
 
+	// register the timer under the lock, so it can not fire before it is known
+	r.muxResponseCB.Lock()
 	newTimer := time.AfterFunc(r.writeTimeout, func() {
 		r.muxResponseCB.Lock()
 		_, pending := r.pendingWriteApprovals[ski][*msg.RequestHeader.MsgCounter]
@@ -204,7 +206,6 @@ func (r *FeatureLocal) addPendingApproval(msg *api.Message) {
 		_ = msg.FeatureRemote.Device().Sender().ResultError(msg.RequestHeader, r.Address(), err)
 	})
 
-	r.muxResponseCB.Lock()
 	if _, ok := r.pendingWriteApprovals[ski]; !ok {
 		r.pendingWriteApprovals[ski] = make(map[model.MsgCounterType]*time.Timer)
 	}
@@ -249,9 +250,14 @@ func (r *FeatureLocal) ApproveOrDenyWrite(msg *api.Message, err model.ErrorType)
 		}
 	}
 
-	timer.Stop()
+	stopped := timer.Stop()
 
 	delete(r.writeApprovalReceived[ski], *msg.RequestHeader.MsgCounter)
+
+	// the timeout fired or another call already completed this write
+	if !stopped {
+		return
+	}
 
 	r.muxResponseCB.Lock()
 	defer r.muxResponseCB.Unlock()
